@@ -20,7 +20,7 @@ CONSTANTS AlphaName,  \* which alphabet: "all" | "q" (C11 quick) | "t" (C11 thor
 \* The C11 alphabets: every message kind, every clause of the property has its trigger (wrong-state requests, failing
 \* logins of every kind, second logins, obo from non-root and root, forged sender, version change).
 AlphaQ ==
-  {MHi("A"), MHi("B"), MHi("bad")}
+  {MHi("A"), MHi("B"), MHi("bad"), MHi("old")}
   \cup {MLogin("basic", s) : s \in {"right", "wrong", "needscred"}}
   \cup {MLogin("token", s) : s \in {"right", "rightroot", "expired", "deleted", "nologin"}}
   \cup {MLogin("reset", "known"), MLogin("unknown", "x")}
@@ -31,7 +31,6 @@ AlphaQ ==
         MTop("get", "me", "desc", "none"), MTop("get", "me", "desc", "valid"),
         MTop("leave", "grp", "none", "none"), MTop("note", "grp", "read", "none")}
 AlphaT == AlphaQ
-  \cup {MHi("old")}
   \cup {MLogin("basic", s) : s \in {"rightroot", "expired", "malformed"}}
   \cup {MLogin("token", s) : s \in {"wrong", "needscred"}}
   \cup {MAcc("new", "F", "basic", "none", "F", "none"), MAcc("other", "F", "basic", "none", "F", "none"),
